@@ -5,7 +5,8 @@ namespace occa {
     identifierToken::identifierToken(const fileOrigin &origin_,
                                      const std::string &value_) :
       token_t(origin_),
-      value(value_) {}
+      value(value_),
+      canExpand(true) {}
 
     identifierToken::~identifierToken() {}
 
@@ -14,7 +15,9 @@ namespace occa {
     }
 
     token_t* identifierToken::clone() const {
-      return new identifierToken(origin, value);
+      identifierToken *token = new identifierToken(origin, value);
+      token->canExpand = canExpand;
+      return token;
     }
 
     void identifierToken::print(io::output &out) const {
